@@ -22,16 +22,31 @@
 XMLSize_t SPARE0; XMLCh UG0;
 #define CUR_G (fCharBuf[(fCharIndex + G < kCharBufSize) ? fCharIndex + G : 0])    /* G-th character of the unread sequence */
 
+/* ghost shim (added by the lead): records whether the LAST refill made no progress (returned false or did not enlarge the
+   unread window) -- "gives up only when the data really ends" is stated over it */
+_Bool RF_LAST_STUCK; XMLSize_t RF_CALLS;
+static bool XMLReader_refreshCharBuffer_stk(void)
+{
+  XMLSize_t before = fCharsAvail - fCharIndex;
+  bool r = XMLReader_refreshCharBuffer();
+  RF_LAST_STUCK = (!r || (fCharsAvail - fCharIndex) <= before);
+  if (RF_CALLS < 3) RF_CALLS = RF_CALLS + 1;
+  return r;
+}
+
 /*@extract src/xercesc/internal/XMLReader.cpp XMLReader::skippedString
 ret false
 sub \bmemcmp\( => VERIF_memcmp(
-call refreshCharBuffer => XMLReader_refreshCharBuffer
+call refreshCharBuffer => XMLReader_refreshCharBuffer_stk
 call charsLeftInBuffer => XMLReader_charsLeftInBuffer
-throws XMLReader_refreshCharBuffer
+throws XMLReader_refreshCharBuffer_stk
 contract
 __CPROVER_requires(RI_RDR && !verif_thrown && G < kCharBufSize && toSkip == STRP)
-__CPROVER_requires(SPARE0 == fCharsAvail - fCharIndex && UG0 == CUR_G)
-__CPROVER_assigns(fCurCol, fCharIndex, fCharsAvail, fNoMore, __CPROVER_object_upto(fCharBuf, sizeof(fCharBuf)), verif_thrown, verif_throw_type, verif_throw_code)
+__CPROVER_requires(SPARE0 == fCharsAvail - fCharIndex && UG0 == CUR_G && RF_CALLS == 0)
+__CPROVER_assigns(fCurCol, fCharIndex, fCharsAvail, fNoMore, __CPROVER_object_upto(fCharBuf, sizeof(fCharBuf)), verif_thrown, verif_throw_type, verif_throw_code, RF_LAST_STUCK, RF_CALLS)
+/* C04: it gives up for lack of characters only when the last refill made no progress (end of data), never merely because one
+   refill (a short stream read) did not deliver the whole token */
+__CPROVER_ensures((!verif_thrown && !__CPROVER_return_value && fCharsAvail - fCharIndex < SRCLEN) ==> (RF_CALLS >= 1 && RF_LAST_STUCK))
 /* C01 */
 __CPROVER_ensures(RI_RDR && (verif_thrown ==> !__CPROVER_return_value))
 /* C04 failure: the unread sequence is unchanged (it may have grown at the far end): nothing consumed wherever the refills fell */
@@ -44,7 +59,7 @@ __CPROVER_ensures((__CPROVER_return_value && G < SRCLEN) ==> (fCharBuf[(fCharInd
 /* ... C03: and the column advanced by exactly strlen */
 __CPROVER_ensures(__CPROVER_return_value ==> fCurCol == __CPROVER_old(fCurCol) + SRCLEN)
 loop 1
-__CPROVER_assigns(charsLeft, fCharIndex, fCharsAvail, fNoMore, __CPROVER_object_upto(fCharBuf, sizeof(fCharBuf)), verif_thrown, verif_throw_type, verif_throw_code)
+__CPROVER_assigns(charsLeft, fCharIndex, fCharsAvail, fNoMore, __CPROVER_object_upto(fCharBuf, sizeof(fCharBuf)), verif_thrown, verif_throw_type, verif_throw_code, RF_LAST_STUCK, RF_CALLS)
 __CPROVER_loop_invariant(RI_RDR && !verif_thrown && charsLeft == fCharsAvail - fCharIndex && charsLeft >= SPARE0)
 __CPROVER_loop_invariant((G < SPARE0) ==> CUR_G == UG0)
 /* every round must enlarge the window, which is bounded by the buffer */
